@@ -45,7 +45,11 @@ ASSUMPTIONS = [
     "the sandbox prefix; the model nevertheless matches against the actual absolute path",
     "by-construction call graph = the calls written in the generated sources (direct calls of same-file functions and of "
     "from-imported functions, Class.static(), Class.classmethod(), obj = Class(); obj.m(), self.m(), nested function called by "
-    "its outer function); importing a module is NOT modelled as calling its initialiser",
+    "its outer function; JavaScript and Java: calls inside one file / class only); importing a module is NOT modelled as "
+    "calling its initialiser; a module whose base name occurs twice in the project is never imported (which file "
+    "`from modA import f` denotes is an import-resolution question, C07); decorated and async functions are never callees",
+    "a Java unit has an initialiser exactly when it has a `package` statement (the only top-level statement that is neither a "
+    "declaration nor an import)",
     "flows: only the two directions the property states are demanded: (a) both ends of every reported flow lie in methods "
     "reachable from E, (b) the own parameter->sink pair of every method reachable from E is reported; extra pairs between "
     "reachable methods are C11's matter",
